@@ -135,6 +135,53 @@ def utf8Encode : List Nat → Option Bytes
     | some a, some b => some (a ++ b)
     | _, _ => none
 
+/-- `bytes.decode()` of UTF-8 (strict): `none` = UnicodeDecodeError -/
+def utf8Decode : Bytes → Option (List Nat)
+  | [] => some []
+  | a :: rest =>
+    if a < 0x80 then (utf8Decode rest).map (a :: ·)
+    else if 0xC2 ≤ a ∧ a < 0xE0 then
+      match rest with
+      | b :: rest' =>
+        if 0x80 ≤ b ∧ b < 0xC0 then (utf8Decode rest').map (((a - 0xC0) * 64 + (b - 0x80)) :: ·) else none
+      | _ => none
+    else if 0xE0 ≤ a ∧ a < 0xF0 then
+      match rest with
+      | b :: c :: rest' =>
+        let cp := (a - 0xE0) * 4096 + (b - 0x80) * 64 + (c - 0x80)
+        if 0x80 ≤ b ∧ b < 0xC0 ∧ 0x80 ≤ c ∧ c < 0xC0 ∧ 0x800 ≤ cp ∧ ¬ (0xD800 ≤ cp ∧ cp < 0xE000) then
+          (utf8Decode rest').map (cp :: ·)
+        else none
+      | _ => none
+    else if 0xF0 ≤ a ∧ a < 0xF5 then
+      match rest with
+      | b :: c :: d :: rest' =>
+        let cp := (a - 0xF0) * 262144 + (b - 0x80) * 4096 + (c - 0x80) * 64 + (d - 0x80)
+        if 0x80 ≤ b ∧ b < 0xC0 ∧ 0x80 ≤ c ∧ c < 0xC0 ∧ 0x80 ≤ d ∧ d < 0xC0 ∧ 0x10000 ≤ cp ∧ cp < 0x110000 then
+          (utf8Decode rest').map (cp :: ·)
+        else none
+      | _ => none
+    else none
+
+/-- one code point of `dns.rdata._escapify_unicode`: only `"`, `\\` and C0 controls are escaped; every other code point
+is emitted raw (the parser re-encodes it as UTF-8) -/
+def escUChar (esc : List Nat) (c : Nat) : List Nat :=
+  if c ∈ esc then [92, c]
+  else if 0x20 ≤ c then [c]
+  else 92 :: dec3 c
+
+/-- `dns.rdata._escapify_unicode(str)` -/
+def escapifyUWith (esc : List Nat) (s : List Nat) : List Nat := s.flatMap (escUChar esc)
+
+/-- the text of one TXT-like string under `txt_is_utf8`: the Unicode form when the octets are valid UTF-8,
+else the octet form (`except Exception: element = _escapify(s)`) -/
+def txtElement (utf8 : Bool) (escU escR : List Nat) (s : Bytes) : List Nat :=
+  if utf8 then
+    match utf8Decode s with
+    | some us => escapifyUWith escU us
+    | none => escapifyRWith escR s
+  else escapifyRWith escR s
+
 /-- `Token.unescape_to_bytes`: `\DDD` is an *octet*; every other character contributes its UTF-8 encoding -/
 def unescapeBytes : List Nat → Option Bytes
   | [] => some []
